@@ -278,9 +278,34 @@ def cond_key(c):
     return tables.atom_text(c)
 
 
+def helper_constants(db, callee):
+    """sorted constants a small repo function may return, when every return value is a constant or a conditional
+    expression over constants; None otherwise"""
+    g = [x for x in (db.fn(callee, required=False, all=True) or []) if x.body is not None]
+    if len(g) != 1:
+        return None
+    out = set()
+
+    def leaves(v):
+        v = _strip_casts(v)
+        if v is None:
+            return False
+        if v.k == 'ConditionalOperator':
+            return leaves(v.child('then')) and leaves(v.child('else'))
+        if v.cv is not None and v.k != 'DeclRefExpr' or (v.k == 'DeclRefExpr' and v.dk == 'enum'):
+            out.add(v.cv)
+            return True
+        return False
+    rets = [r for r in g[0].walk() if r.k == 'ReturnStmt']
+    if not rets or not all(r.child('value') is not None and leaves(r.child('value')) for r in rets):
+        return None
+    return sorted(out)
+
+
 class WInterp:
     def __init__(self, fn, env, record_enum, conc=None):
         self.fn = fn
+        self.db = getattr(fn, 'db', None)
         self.conc = conc or {}      # variable name -> concrete integer (enumerated by the caller)
         self.env = env
         self.rec = record_enum      # value -> name
@@ -330,6 +355,14 @@ class WInterp:
             if a == b:
                 return a
             return a if self.atom_value(e.child('cond')) else b
+        if e.k == 'CallExpr' and e.callee and self.db is not None:
+            # a helper that classifies its argument into one of a few constant codes: fork over the codes
+            consts = helper_constants(self.db, e.callee)
+            if consts:
+                key = 'call:%s@%s' % (e.callee, e.loc())
+                if key not in self.env:
+                    raise NeedAtom((key, len(consts)))
+                return (consts[self.env[key]], 0)
         return (0, 0xFF)
 
     def boolval(self, c):
@@ -530,6 +563,20 @@ def interpret_writer(fn, region, record_enum, max_atoms=14, conc=None):
                 e2[k] = v
                 envs.append(e2)
     return atoms, results
+
+
+def fork(env, key):
+    """environments that resolve a NeedAtom key: both truth values, or every arm / helper result index"""
+    choices = (False, True)
+    if isinstance(key, tuple):
+        key, n = key
+        choices = tuple(range(n))
+    out = []
+    for v in choices:
+        e2 = dict(env)
+        e2[key] = v
+        out.append(e2)
+    return out
 
 
 def record_instances(ops):
